@@ -1,10 +1,11 @@
 """C24 - Cloned parse results are independent deep copies."""
 import os
 from vlib import *
+from termlib import clist, intern_numbers
 
 ID = "C24"
 # set to True (or VERIF_CLONE_REPAIRED=1) once parser.Clone keeps results without AST as such
-REPAIRED = os.environ.get("VERIF_CLONE_REPAIRED", "0") == "1"
+REPAIRED = os.environ.get("VERIF_CLONE_REPAIRED", "1") == "1"
 COQ_FILES = ["Common/Corr.v", "Model/Clone.v", "Proofs/Clone.v", "Props/C24.v", "Props/C24_repaired.v"]
 PROPS = "Props/C24_repaired.v" if REPAIRED else "Props/C24.v"
 THEOREMS_ASIS = ["C24_clone_index_complete_refuted", "C24_clone_index_complete_partial", "C24_clone_proto_equal",
@@ -259,7 +260,7 @@ def parse_path(p):
 
 
 def addr_term(a):
-    return "(0%%N, [SOpt %d])" % a
+    return "(ad %d)" % a
 
 
 def build_case(o, mode):
@@ -275,7 +276,7 @@ def build_case(o, mode):
     index, lookups = [], []
 
     def nopt(x):
-        return "None" if x < 0 else "(Some %d%%N)" % x
+        return "nn" if x < 0 else "(sn %d%%N)" % x
 
     def wrap(prefix, w):
         t = "PHere %s" % w
@@ -288,14 +289,14 @@ def build_case(o, mode):
         if kind not in CKIND:
             raise KeyError(kind)
         if on >= 0:
-            index.append("(KMsg %s, %d%%N)" % (addr_term(oa), on))
-        lookups.append("(%s, %s)" % (wrap(prefix, "WSelf"), nopt(cn)))
+            index.append("(ie (KMsg %s) %d%%N)" % (addr_term(oa), on))
+        lookups.append("(lk %s %s)" % (wrap(prefix, "WSelf"), nopt(cn)))
         if kind == "ExtensionRange":
             if oe >= 0:
-                index.append("(KExts %s, %d%%N)" % (addr_term(oa), oe))
-            lookups.append("(%s, %s)" % (wrap(prefix, "WExts"), nopt(ce)))
+                index.append("(ie (KExts %s) %d%%N)" % (addr_term(oa), oe))
+            lookups.append("(lk %s %s)" % (wrap(prefix, "WExts"), nopt(ce)))
         slots = [[] for _ in range(NSLOTS.get(kind, 0))]
-        opts = "None"
+        opts = "on"
         for k in kids.get(path, []):
             (num, idx) = parse_path(k[0])[-1]
             if num == OPTS_FIELD.get(kind) and idx is None:
@@ -307,19 +308,19 @@ def build_case(o, mode):
                     if n2 != 999:
                         raise KeyError("message inside options: %s" % u[1])
                     if u[4] >= 0:
-                        index.append("(KMsg %s, %d%%N)" % (addr_term(u[2]), u[4]))
-                    lookups.append("(%s, %s)" % (wrap(prefix, "(WOpt %d)" % j), nopt(u[5])))
+                        index.append("(ie (KMsg %s) %d%%N)" % (addr_term(u[2]), u[4]))
+                    lookups.append("(lk %s %s)" % (wrap(prefix, "(WOpt %d)" % j), nopt(u[5])))
                     parts = []
                     for q in kids.get(u[0], []):
                         (n3, kk) = parse_path(q[0])[-1]
                         if n3 != 2:
                             raise KeyError("message inside uninterpreted option")
                         if q[4] >= 0:
-                            index.append("(KMsg %s, %d%%N)" % (addr_term(q[2]), q[4]))
-                        lookups.append("(%s, %s)" % (wrap(prefix, "(WPart %d %d)" % (j, kk)), nopt(q[5])))
-                        parts.append("(%s, 0%%N)" % addr_term(q[2]))
-                    us.append("UOpt %s 0%%N [%s]" % (addr_term(u[2]), "; ".join(parts)))
-                opts = "(Some (%s, 0%%N, [%s]))" % (addr_term(k[2]), "; ".join(us))
+                            index.append("(ie (KMsg %s) %d%%N)" % (addr_term(q[2]), q[4]))
+                        lookups.append("(lk %s %s)" % (wrap(prefix, "(WPart %d %d)" % (j, kk)), nopt(q[5])))
+                        parts.append("(pt %s)" % addr_term(q[2]))
+                    us.append("(uo %s %s)" % (addr_term(u[2]), clist("PC", "PN", parts)))
+                opts = "(os %s %s)" % (addr_term(k[2]), clist("UC", "UN", us))
             elif kind in SLOTS and num in SLOTS[kind] and idx is not None:
                 s = SLOTS[kind][num]
                 slots[s].append(elem(k, prefix + [(s, idx)]))
@@ -327,17 +328,31 @@ def build_case(o, mode):
                 continue   # source code info: no index entries, checked by the oracle only
             else:
                 raise KeyError("unexpected child %s of %s" % (k[0], kind))
-        return "(Elem %s %s %s 0%%N [%s])" % (CKIND[kind], addr_term(oa), opts, "; ".join("[%s]" % "; ".join(s) for s in slots))
+        return "(el %s %s %s %s)" % (CKIND[kind], addr_term(oa), opts, clist("SC", "SN", [clist("EC", "EN", sl) for sl in slots]))
 
     tree = elem(elems[""], [])
     if mode == "noast":
         placeholder = elems[""][4]
-        return "CC %s false [] %s %s [%s]" % (coq_bool(REPAIRED), nopt(placeholder), tree, "; ".join(lookups))
-    return "CC %s true [%s] None %s [%s]" % (coq_bool(REPAIRED), "; ".join(index), tree, "; ".join(lookups))
+        return "CC %s false IN %s %s %s" % (coq_bool(REPAIRED), nopt(placeholder), tree, clist("LC", "LN", lookups))
+    return "CC %s true %s nn %s %s" % (coq_bool(REPAIRED), clist("IC", "IN", index), tree, clist("LC", "LN", lookups))
 
 
 HEADER = ("From Coq Require Import List NArith Bool.\nImport ListNotations.\n"
-          "From PV Require Import Common.Corr Model.Clone.\n")
+          "From PV Require Import Common.Corr Model.Clone.\n"
+          "Definition ad (n : nat) : addr := (0%N, cons (SOpt n) nil).\n"
+          "Definition sn (n : N) : option node := Some n. Definition nn : option node := None.\n"
+          "Definition ie (k : key) (n : N) : key * node := (k, n).\n"
+          "Definition IN : list (key * node) := nil. Definition IC (x : key * node) (l : list (key * node)) := cons x l.\n"
+          "Definition lk (p : pos) (n : option node) : pos * option node := (p, n).\n"
+          "Definition LN : list (pos * option node) := nil. Definition LC (x : pos * option node) (l : list (pos * option node)) := cons x l.\n"
+          "Definition pt (a : addr) : addr * N := (a, 0%N).\n"
+          "Definition PN : list (addr * N) := nil. Definition PC (x : addr * N) (l : list (addr * N)) := cons x l.\n"
+          "Definition uo (a : addr) (ps : list (addr * N)) : uopt := UOpt a 0%N ps.\n"
+          "Definition UN : list uopt := nil. Definition UC (x : uopt) (l : list uopt) := cons x l.\n"
+          "Definition os (a : addr) (us : list uopt) : option opts := Some (a, 0%N, us). Definition on : option opts := None.\n"
+          "Definition EN : list elem := nil. Definition EC (x : elem) (l : list elem) := cons x l.\n"
+          "Definition SN : list (list elem) := nil. Definition SC (x : list elem) (l : list (list elem)) := cons x l.\n"
+          "Definition el (k : ckind) (a : addr) (o : option opts) (ss : list (list elem)) : elem := Elem k a o 0%N ss.\n")
 
 SYNTHETIC = ("*ast.SyntheticMapField", "*ast.SyntheticOneof", "*ast.SyntheticMapEntryNode", "*ast.SyntheticGroupMessageNode")
 
@@ -431,9 +446,20 @@ def run(ctx):
     ctx.extra["element_kinds_walked"] = kinds_seen
     ctx.sample({"mode": "ast", "text": CORPUS[0]})
     ctx.sample({"mode": cases[-1]["mode"], "text": cases[-1]["text"][:1500]})
-    mism, err = coq_eval_mismatches("cases_C24", HEADER, terms, "clone_chk", shard_size=ctx.budget(16, 200))
+    # the model is evaluated inside coqc on the cases, in generation order (corpus first), that fit a budget of term
+    # text (reading the terms is what costs time); every case was already judged by the direct oracle above
+    budget = ctx.budget(1200000, 40000000)
+    picked, used = [], 0
+    for k, t in enumerate(terms):
+        if used + len(t) <= budget:
+            picked.append(k)
+            used += len(t)
+    ctx.extra["model_evaluated_in_coq"] = {"cases": len(picked), "of": len(terms), "term_bytes": used}
+    header, pterms = intern_numbers(HEADER, [terms[k] for k in picked], "nat")
+    size = max(1, (len(pterms) + NCPU - 1) // NCPU)
+    mism, err = coq_eval_mismatches("cases_C24", header, pterms, "clone_chk", shard_size=size)
     if err:
         raise RuntimeError(err)
     for k in mism:
-        c, o = meta[k]
+        c, o = meta[picked[k]]
         ctx.corr_break("clone:index", {"text": c["text"], "mode": c["mode"]}, {"elems": len(o["elems"])})
